@@ -135,6 +135,9 @@ func (p *Program) verifyFunc(name string, c *FuncContract) (res *FuncResult) {
 		st.assume(f)
 	}
 	for _, r := range c.Assumes {
+		if len(r.Props) > 0 && p.curProp != "" && !hasProp(r.Props, p.curProp) {
+			continue // an assumption made for another property only
+		}
 		f := env.Bool(r.Expr)
 		if len(env.errs) > 0 {
 			vc.fatalf("%s assumes %q: %s", name, r.Text, strings.Join(env.errs, "; "))
@@ -156,8 +159,10 @@ func (p *Program) verifyFunc(name string, c *FuncContract) (res *FuncResult) {
 		ex.run(fr, fn.Blocks[0], 0, nil, st, func(st2 *State, rets []Val, panicked bool) {
 			vc.paths++
 			if panicked {
-				if c.NoPanic && vc.collecting == 0 {
+				if c.NoPanic && vc.collecting == 0 && (len(c.NoPanicProps) == 0 || p.curProp == "" || hasProp(c.NoPanicProps, p.curProp)) {
+					vc.curProps = c.NoPanicProps
 					ex.obligationFull(fr, st2, "nopanic", "explicit panic unreachable", "false", false, fmt.Sprintf("panic@%d", ex.siteOrdinal(ex.cur)), true)
+					vc.curProps = nil
 				}
 				return
 			}
@@ -280,6 +285,18 @@ func (ex *Exec) frameObligations(fr *Frame, st *State, c *FuncContract, env *Env
 	if ws.all {
 		return
 	}
+	// the frame clauses at one return are tried as one conjunction first (same path condition)
+	vc.groupCtr++
+	n0 := len(vc.obligations)
+	basePC := append([]string{}, st.pc...)
+	defer func() {
+		for _, o := range vc.obligations[n0:] {
+			if o.Kind == "frame" {
+				o.Group = vc.groupCtr
+				o.Assumes = basePC
+			}
+		}
+	}()
 	if st.epoch != vc.entry.epoch {
 		ex.obligationFull(fr, st, "frame", "no unconstrained call may run in a function with a modifies clause", "false", false, "havoc", true)
 		return
